@@ -349,6 +349,49 @@ def c03_order(ctx, case):
                         "dimension was selected?) c=%r" % (q["method"], q["select"], q["IP"], e, c), sig=sig)
 
 
+# ---- ARMA on narrow-band data: the inner least-squares problem is fed an almost noise-free autocorrelation sequence ---------
+@st.composite
+def arma_tones_case(draw):
+    cplx = draw(st.booleans())
+    N = draw(st.integers(128, 256))
+    K = draw(st.integers(1, 3))
+    tones = [[draw(st.floats(-0.45 if cplx else 0.03, 0.45)), draw(st.sampled_from([0.5, 1.0, 2.0])), draw(st.floats(0, 6.283))] for _ in range(K)]
+    x = {"kind": "tones", "n": N, "complex": cplx, "seed": draw(gen.seeds), "tones": tones,
+         "noise": draw(st.sampled_from([1e-3, 3e-3, 1e-2]))}
+    P = draw(st.integers(5, 8))
+    Q = draw(st.integers(1, P))
+    lag = draw(st.integers(2 * P + 1, 3 * P))
+    return {"x": x, "P": P, "Q": Q, "lag": lag, "c": draw(st.sampled_from([3.7, 0.013, 250.0, 0.3, 17.0])),
+            "phase": draw(st.floats(0, 6.283)), "neg": draw(st.booleans())}
+
+
+@sub("C03.arma_tones", strategy=arma_tones_case(), quick=150, thorough=4000,
+     doc="arma_estimate with P 5..8, lag > 2P on tones at 40-60 dB: AR and MA coefficients unchanged, variance x |c|^2, within 1e-7 "
+         "(unchanged code: <= 2.4e-10; the general ARMA rows use 1e-4 because noise-like data make the same problem ill-posed)")
+def c03_arma_tones(ctx, case):
+    x = gen.realise(case["x"])
+    cplx = np.iscomplexobj(x)
+    x = x.astype(complex) if cplx else x.astype(float)
+    c = case["c"] * (np.exp(1j * case["phase"]) if cplx else (-1.0 if case["neg"] else 1.0))
+    sig = {"fn": "arma_estimate", "clause": "tones"}
+    ctx.sig_on_exception = sig
+    a0, b0, r0 = spectrum.arma_estimate(x, case["P"], case["Q"], case["lag"])
+    a1, b1, r1 = spectrum.arma_estimate(c * x, case["P"], case["Q"], case["lag"])
+    a0, b0, a1, b1 = (np.asarray(v, dtype=complex) for v in (a0, b0, a1, b1))
+    ctx.cls("complex" if cplx else "real", "noise=%g" % case["x"]["noise"], "P=%d" % case["P"])
+    ctx.nontrivial(True)
+    if not (np.all(np.isfinite(a0)) and np.all(np.isfinite(b0)) and float(np.max(np.abs(a0))) <= 50.0):
+        ctx.exclude("degenerate ARMA fit of x itself (non-finite or |ar| > 50)")
+        return
+    for name, u, v in (("AR", a0, a1), ("MA", b0, b1)):
+        ctx.check(u.shape == v.shape, "%s part: %d coefficients for x, %d for c x" % (name, len(u), len(v)), sig=sig)
+        d = float(np.max(np.abs(u - v))) / max(1.0, float(np.max(np.abs(u))))
+        ctx.check(d <= 1e-7, "%s coefficients of c x differ from those of x by %.3g (allowed 1e-7; |c| = %g, noise %g, P=%d Q=%d lag=%d)"
+                  % (name, d, abs(c), case["x"]["noise"], case["P"], case["Q"], case["lag"]), sig=sig)
+    d = abs(complex(r1) / (abs(c) ** 2 * complex(r0)) - 1)
+    ctx.check(d <= 1e-6, "variance of c x is not |c|^2 times that of x (relative difference %.3g)" % d, sig=sig)
+
+
 # ---- sharp spectral lines (MUSIC / EV): scaling where the small singular values carry the weights -------------------------
 @st.composite
 def sharp_case(draw):
